@@ -29,7 +29,8 @@ Pipeline
      exactly one subcommand key per level, only its section, complete settings, required -> ArgumentError; a second
      reference (`direct_reference`, from the docstrings of the two static methods) judges direct `handle_subcommands` calls;
      deviations whose signature is an open known finding are reported as KNOWN-FINDING;
- (4) replay of the repaired defect F15d (fixes/f15d_*.py) and of the open findings' witnesses.
+ (4) replay of the repaired defects (F15d: fixes/f15d_*.py; the unknown/empty subcommand name: fixes/f17n_*.py and its witness;
+     a repaired defect that fails again is a VIOLATION) and of the open findings' witnesses.
 """
 from __future__ import annotations
 
@@ -68,9 +69,11 @@ F_EARLY = "C17-early-selection-drops-settings"
 F_FALSY = "C17-falsy-subcommand-name"
 F_LEAK = "C17-env-default-config-leak"
 F_ENVNAME = "C17-env-named-subcommand-resets-defaults"
+F_MAPPING = "C17-parse-env-mapping-not-handed-on"
 
 OPT_NAMES = ["alpha", "beta", "gamma", "delta", "kappa", "omega"]
-SUB_NAMES = ["fit", "test", "run", "eval", "sync", "list"]
+# "items" and "update" are attribute names of Namespace: stored under the clash-marked name (C11), looked up by plain name
+SUB_NAMES = ["fit", "test", "run", "eval", "sync", "list", "items", "update"]
 DESTS = ["subcommand", "cmd", "mode"]
 
 _TMP = []
@@ -140,6 +143,8 @@ def gen_cfg_tree(rng, spec, p_opt=0.5, p_name=0.3, p_sec=0.5, multi=0.35, depth=
         if rng.random() < p_bad:
             t[sub["dest"]] = rng.choice(["", "", "nosuch"])
         items = list(t.items())
+        if rng.random() < p_bad:
+            items.append((rng.choice(names), rng.choice([5, 0, "text"])))
         for n in secs:
             items.append((n, gen_cfg_tree(rng, dict(sub["choices"])[n], 0.7, p_name, p_sec, multi, depth + 1, p_bad)))
         rng.shuffle(items)
@@ -215,11 +220,13 @@ def gen_input(rng, spec):
     inp = {"kind": kind, "env": {}}
     if spec["default_env"] or kind == "env":
         inp["env"] = gen_env(rng, spec, rng.choice([0.15, 0.3, 0.5]))
+    if kind == "env" and rng.random() < 0.5:
+        inp["env_as"] = "mapping"   # parse_env(<mapping>) instead of the process environment
     if kind == "args":
         inp["argv"] = gen_argv(rng, spec, rng.choice([0.3, 0.7, 0.9]))
     elif kind in ("string", "object", "path"):
         inp["tree"] = gen_cfg_tree(rng, spec, 0.5, rng.choice([0.2, 0.5]), rng.choice([0.4, 0.8]), rng.choice([0.2, 0.5]),
-                                   p_bad=0.4 if rng.random() < 0.04 else 0.0)
+                                   p_bad=0.4 if rng.random() < 0.06 else 0.0)
     return inp
 
 
@@ -237,7 +244,8 @@ def enc(v):
     if isinstance(v, str):
         return v
     if isinstance(v, Namespace):
-        return {"s": [[k, enc(x)] for k, x in vars(v).items()]}
+        # attribute names of Namespace are stored under a zero-width clash mark (C11): the wire carries the plain name
+        return {"s": [[k.lstrip("\u200b"), enc(x)] for k, x in vars(v).items()]}
     return "§" + type(v).__name__.replace("Path_fr", "Path").replace("Path_fc", "Path")
 
 
@@ -260,6 +268,8 @@ def wire_to_plain(w, drop_meta=True):
     return w
 
 
+ERR_BADNAME = re.compile(r'expected "([^"]*)" to be one of .*, but got')
+ERR_BADSEC = re.compile(r'Expected the settings of subcommand "([^"]*)" to be a mapping')
 ERR_NOSUB = re.compile(r'expected "([^"]*)" to be one of')
 ERR_REQ = re.compile(r'Key "([^"]*)" is required but not included')
 
@@ -268,6 +278,12 @@ def err_of(ex):
     from jsonargparse import ArgumentError
 
     msg = str(getattr(ex, "message", None) or ex)
+    m = ERR_BADNAME.search(msg)
+    if m:
+        return {"err": "badname", "key": m.group(1)}
+    m = ERR_BADSEC.search(msg)
+    if m:
+        return {"err": "badsec", "key": m.group(1)}
     m = ERR_NOSUB.search(msg)
     if m:
         return {"err": "nosub", "key": m.group(1)}
@@ -470,7 +486,9 @@ def real_run(spec, inp, record=True):
     rec = Recorder(built)
     out = {}
     try:
-        os.environ.update(inp.get("env") or {})
+        mapping = inp["kind"] == "env" and inp.get("env_as") == "mapping"
+        if not mapping:
+            os.environ.update(inp.get("env") or {})
         p = built.root
         kind = inp["kind"]
         with warnings.catch_warnings(record=True) as wlist:
@@ -488,7 +506,7 @@ def real_run(spec, inp, record=True):
                 elif kind == "path":
                     r = p.parse_path(built.file(inp["tree"]), **kw)
                 elif kind == "env":
-                    r = p.parse_env()
+                    r = p.parse_env(dict(inp.get("env") or {})) if mapping else p.parse_env()
                 else:
                     raise MachineryError("unknown kind " + kind)
                 out["res"] = {"ok": enc(r)}
@@ -700,7 +718,7 @@ def same(a, b):
 def canon_out(o):
     if "ok" in o:
         return {"ok": canon(o["ok"])}
-    if o.get("err") in ("nosub", "reqkey"):
+    if o.get("err") in ("nosub", "reqkey", "badname", "badsec"):
         return {"err": o["err"], "key": o["key"]}
     return {"err": o.get("err")}
 
@@ -795,6 +813,11 @@ def reference(spec, inp):
         # levels at which the environment names ANOTHER subcommand than the one finally selected: the layer of that parser
         # (its defaults and environment, handled on their own) has already dropped the sections of the others (finding F_EARLY)
         env_other_at = [k for k in range(len(path)) if env_named_value(spec, inp, path[:k]) not in (None, path[k])]
+        # parse_env(<mapping>): below a level whose subcommand is NOT named by its variable in the mapping, the sub-parsers
+        # are parsed by handle_subcommands, which reads the process environment instead of the mapping (finding F_MAPPING)
+        mapping_lost = inp.get("env_as") == "mapping" and any(env_named_value(spec, inp, path[:k]) != path[k] for k in range(len(path)))
+        if mapping_lost:
+            hints[("choice", path)] = F_MAPPING
         for name, dflt in node["opts"]:
             given, lower = [], []   # lower: (level of the source's parser, rank of its kind, value)
             shadowed = False
@@ -826,6 +849,8 @@ def reference(spec, inp):
                 vals[name] = {v for _, _, v in lower}
             if shadowed and not given:
                 hints.setdefault(path + (name,), F_ENVNAME)
+            if mapping_lost and not given:
+                hints.setdefault(path + (name,), F_MAPPING)
         sub = node["sub"]
         if not sub:
             checks.append((path, vals, None, None, []))
@@ -881,6 +906,17 @@ def reference(spec, inp):
                     chosen, why = set(with_settings), "first-any"
                 else:
                     chosen, why = with_settings[0], "first"
+        # a value under a subcommand name that is neither a mapping nor null (single-source inputs): the parse must fail;
+        # for the SELECTED subcommand with the argument error of fix adfb1a7
+        if inp["kind"] in ("string", "object", "path"):
+            gsect, gok = tree_get(inp["tree"], path)
+            if gok and isinstance(gsect, dict):
+                scal = [n for n in names if n in gsect and gsect[n] is not None and not isinstance(gsect[n], dict)]
+                if scal:
+                    sel = chosen if isinstance(chosen, str) else None
+                    if sel in scal:
+                        return ("error-badsec", ".".join(path + (sel,)), notes, hints)
+                    return ("error-any", ".".join(path + (scal[0],)), notes, hints)
         if chosen is None:
             checks.append((path, vals, sub["dest"], None, names))
             if sub["required"]:
@@ -892,6 +928,7 @@ def reference(spec, inp):
         if chosen not in names:
             # the source of highest precedence names something that is not a subcommand: nothing is selected, the parse must fail
             hints["bad-name"] = F_FALSY if not chosen else None
+            hints["bad-name-strict"] = True   # since fix 96e4fb9 the rejection is the "but got" parse error, required or not
             return ("error-any", ".".join(path + (sub["dest"],)), notes, hints)
         checks.append((path, vals, sub["dest"], chosen, names))
         path = path + (chosen,)
@@ -927,12 +964,18 @@ def early_selection_possible(spec, inp):
     """signature of the open finding F_EARLY: some source that is loaded on its own (a default config file, a config
     argument, the config environment variable) holds, at one level, sections for two or more subcommands, or names a
     subcommand and holds a section of another one"""
+    env_on = bool(spec.get("default_env") or inp["kind"] == "env")
+
     def multi(node, tree):
         if not isinstance(tree, dict) or not node["sub"]:
             return False
         names = [n for n, _ in node["sub"]["choices"]]
         secs = [n for n in names if isinstance(tree.get(n), dict)]
         if len(secs) >= 2:
+            return True
+        # with environment parsing the layer of a sub-parser is handled by parse_env (handle + the get_subcommand of
+        # apply_parsing_links): a source that NAMES one subcommand and holds a section of another loses that section there
+        if env_on and tree.get(node["sub"]["dest"]) in names and any(n != tree.get(node["sub"]["dest"]) for n in secs):
             return True
         return any(multi(dict(node["sub"]["choices"])[n], tree[n]) for n in secs)
 
@@ -968,7 +1011,17 @@ def judge(spec, inp, res):
     chint = next((v for k, v in ref[3].items() if isinstance(k, tuple) and k and k[0] == "choice"), None)
     if ref[0] == "error-any":
         if "ok" in res:
-            devs.append(("%r is given a value that is not a subcommand name but the parse succeeds" % ref[1], ref[3].get("bad-name")))
+            devs.append(("%r is given a value that is not a subcommand name / not a mapping but the parse succeeds" % ref[1], ref[3].get("bad-name")))
+        elif ref[3].get("bad-name-strict") and res.get("err") != "badname":
+            devs.append(("%r is given a value that is not a subcommand name: the failure is not the parse error of fix 96e4fb9 (%s)"
+                         % (ref[1], json.dumps(res)[:160]), chint or early or leak))
+        return devs, ref
+    if ref[0] == "error-badsec":
+        if "ok" in res:
+            devs.append(("the settings of the selected subcommand %r are not a mapping but the parse succeeds" % ref[1], None))
+        elif res.get("err") != "badsec":
+            devs.append(("the settings of the selected subcommand %r are not a mapping: the failure is not the parse error of fix adfb1a7 (%s)"
+                         % (ref[1], json.dumps(res)[:160]), chint or early or leak))
         return devs, ref
     if ref[0] == "error":
         if "ok" in res:
@@ -1053,6 +1106,8 @@ def gen_direct(rng, spec):
                     t[n] = None
                 elif r < 0.5:
                     t[n] = {}
+                elif r < 0.53:
+                    t[n] = rng.choice([5, 0, "text"])
         return t
 
     return {"tree": tree(spec), "fail": rng.random() < 0.6, "single": rng.random() < 0.7, "mode": rng.choice(["none", "dflt", "dflt", "env"])}
@@ -1117,6 +1172,8 @@ def sanitize_tree(node, t):
                 out[k] = v
         elif k in names and isinstance(v, dict):
             out[k] = sanitize_tree(dict(sub["choices"])[k], v)
+        elif k in names and v is not None:
+            out[k] = v   # a non-mapping under a subcommand name (must be rejected)
     return out
 
 
@@ -1288,7 +1345,8 @@ def check_case(ctx, spec, inp, origin, stats):
             stats["skipped_calls"] += 1
             continue
         reqs.append((call_request(spec, c), canon_out(c["out"]), "handle", c))
-        reqs.extend(layer_requests(spec, inp, c, seen_layers))
+        if inp.get("env_as") != "mapping":   # with a mapping, handle_subcommands' own parse_env calls read the process environment
+            reqs.extend(layer_requests(spec, inp, c, seen_layers))
     # captured get_subcommands calls
     for g in real["gets"]:
         if g["path"] is None or "out" not in g:
@@ -1419,7 +1477,7 @@ def run(ctx: Ctx):
             stats["ambiguous"] += 1
         elif ref[0] == "ok-open":
             stats["ok-open"] += 1
-        if ref[0] in ("ok", "error", "ok-open", "error-any") and spec["sub"]:
+        if ref[0] in ("ok", "error", "ok-open", "error-any", "error-badsec") and spec["sub"]:
             ctx.nontrivial(json.dumps([spec, inp], sort_keys=True))
         ctx.hist("reference", ref[0])
         report(ctx, spec, inp, devs, origin)
@@ -1436,6 +1494,16 @@ def run(ctx: Ctx):
             ctx.known(f["id"], f["description"])
         else:
             ctx.stale_findings.append(f["id"])
+    for f in ctx.fixed_findings():
+        w = f.get("witness", {})
+        if "spec" in w:
+            real = real_run(w["spec"], w["input"], record=False)
+            devs, _ = judge(w["spec"], w["input"], real["res"])
+            ctx.count()
+            if devs:
+                ctx.violation("repaired defect %s is back: %s" % (f["id"], devs[0][0]),
+                              {"kind": "oracle", "origin": "fixed-finding", "spec": w["spec"], "input": w["input"], "result": real["res"],
+                               "deviations": [d for d, _ in devs]})
     ctx.extra["stats"] = stats
     ctx.extra["cases"] = len(cases)
     ctx.extra["direct_disagreements"] = dbad
@@ -1485,12 +1553,9 @@ def direct_reference(spec, d):
     while node["sub"]:
         sub = node["sub"]
         names = [n for n, _ in sub["choices"]]
-        for n in names:
-            if n in t and not isinstance(t[n], dict):
-                return None
         v = t.get(sub["dest"])
         if v is not None and v not in names:
-            return None
+            return ("error-kind", "badname", ".".join(path + (sub["dest"],)))
         # below the top level the given section has gone through merge_config, which copies leaves: a namespace without
         # leaves does not arrive
         secs = [n for n in names if isinstance(t.get(n), dict) and (not path or has_leaf(t[n]))]
@@ -1499,6 +1564,8 @@ def direct_reference(spec, d):
             if sub["required"]:
                 return ("error", ".".join(path + (sub["dest"],)))
             break
+        if t.get(chosen) is not None and not isinstance(t.get(chosen), dict):
+            return ("error-kind", "badsec", ".".join(path + (chosen,)))
         child = dict(sub["choices"])[chosen]
         given = t.get(chosen) if isinstance(t.get(chosen), dict) else {}
         vals = {name: given.get(name, dflt) for name, dflt in child["opts"]}
@@ -1511,6 +1578,10 @@ def direct_reference(spec, d):
 def direct_judge(spec, d, out):
     ref = direct_reference(spec, d)
     if ref is None:
+        return None
+    if ref[0] == "error-kind":
+        if out.get("err") != ref[1] or out.get("key") != ref[2]:
+            return "handle_subcommands must reject %r with the %s parse error, got %s" % (ref[2], ref[1], json.dumps(out)[:160])
         return None
     if ref[0] == "error":
         if "ok" in out:
